@@ -123,6 +123,10 @@ class Harness:
                     inner = Closure(interp_, sub.ex.node, env, name)
                     return lambda *a, **k: inner(me, *a, **k)
                 todo.extend(bases)
+            if name.startswith('_') and not name.startswith('__') and _BASELINE.get(relpath, {}).get(cls) is not None:
+                # a private attribute that neither the recorded class nor the current class body knows: state added by a later
+                # change (a memo, a cache).  No contract models it, so whatever is read from it is unknown: undecided.
+                raise OutOfSubset(f'{relpath}: self.{name} is an instance attribute the contracts do not model (introduced after they were written)')
             return None
 
         def call(*a, **k):
